@@ -117,7 +117,7 @@ def static_compare(prog: Program, ref: Dict[str, Any], Model, symbols) -> List[s
 
 # ---------------------------------------------------------------------------
 def equivalence(prog: Program, ref: Dict[str, Any], Model, symbols, *, spelling: str = 'pos', check_text: bool = True,
-                check_reads: bool = True, runner: Optional[Callable] = None, budget_s: float = 120,
+                check_reads: bool = True, runner: Optional[Callable] = None, budget_s: float = 60,
                 max_candidates: int = 2, range_from: str = 'reference', ref_runner: Optional[Callable] = None) -> Dict[str, Any]:
     """Explore `_evaluate(t)` on symbolic series against the AST interpreter.
 
